@@ -172,6 +172,13 @@ CARRIERS = {
     "v2fromname": lambda T: 'flow bot inform weather\n  bot say "%s"' % T,
 }
 V2_CODE_KINDS = ("v2cont", "v2single", "v2fromname")
+# the taint sits in the bot INTENT line of the generated flow (it names the flow and is written into its @meta decorator)
+INTENT_CARRIERS = {
+    "v2cont": lambda T: 'bot intent: bot share %s now\nbot action: bot say "BOT-plain answer"' % T,
+    "v2single": lambda T: 'user intent: user asked something\nbot intent: bot share %s now\nbot action: bot say "BOT-plain answer"' % T,
+}
+# evaluated values that must not reach a later LLM prompt either (the user's own token legitimately does)
+PROMPT_MARKERS = ("62615533", "QZQZQZ", "SECRETVAL-CFG")  # computed values and the config secret: nothing legitimate ever puts them into a prompt
 
 
 def wellformed(kind, ttype, tag):
@@ -311,6 +318,8 @@ def _texts_for(kind, full):
         for i, (tx, mk) in enumerate(TAINT):
             out.append(("taint%d" % i, car(tx), _mk([mk], tx)))
             out.append(("taintw%d" % i, car("The value is %s ok" % tx), _mk([mk], tx)))
+            if kind in INTENT_CARRIERS:
+                out.append(("tainti%d" % i, INTENT_CARRIERS[kind](tx), _mk([mk], tx)))
         if kind not in PURE_MESSAGE_KINDS:
             hs = (HOSTILE[::2] if kind.startswith("v2") else HOSTILE) if full else HOSTILE[::3]
             for i, h in enumerate(hs):
@@ -336,7 +345,7 @@ def cases(tier, seed):
                 texts = _texts_for(k, not quick)
                 if quick:
                     stride = (1 if first else 3) * (3 if ver == "v2" else 1)
-                    texts = [x for j, x in enumerate(texts) if (x[0].startswith("taint") and not x[0].startswith("taintw") and first) or (not x[0].startswith("taint") and (j + seed) % stride == 0)]
+                    texts = [x for j, x in enumerate(texts) if (x[0].startswith("taint") and not x[0].startswith("taintw") and (first or x[0].startswith("tainti"))) or (not x[0].startswith("taint") and (j + seed) % stride == 0)]
                 for origin, text, markers in texts:
                     i += 1
                     yield {"id": i, "mode": mode, "ttypes": [tt], "pos": p, "kind": k, "origin": origin, "text": text, "markers": markers}
@@ -349,6 +358,17 @@ def cases(tier, seed):
             for j, text in enumerate(MARKER_VALUES):
                 i += 1
                 yield {"id": i, "mode": mode, "ttypes": tts, "pos": p, "kind": k, "origin": "markervalue%d" % j, "text": text, "markers": []}
+    # 1c. taint in the bot INTENT line of a generated flow, followed by another turn (whose prompts show the history)
+    for mode, kind in (("v2_cont", "v2cont"), ("v2_single", "v2single")):
+        tts = ["free", "free"]
+        pos = _positions(mode, tts)
+        for p, (t, tt, k) in enumerate(pos):
+            if t != 0 or k != kind:
+                continue
+            for origin, text, markers in _texts_for(k, True):
+                if origin.startswith("tainti"):
+                    i += 1
+                    yield {"id": i, "mode": mode, "ttypes": tts, "pos": p, "kind": k, "origin": origin + "+turn", "text": text, "markers": markers}
     # 2. sampled multi-turn conversations: corpus, carriers and mutations at a random position
     n1, n2 = (900, 140) if quick else (14000, 900)
     for ver, n in (("v1", n1), ("v2", n2)):
@@ -439,6 +459,8 @@ class HApp:
         return self.ver == "v2" and set(self.app.runtime.flow_configs) != self.flow_ids
 
     def reset(self, pos, text, tag):
+        self.later_turns_compared = 0
+        self.later_turns_emptied = 0
         self.hpos, self.htext, self.tag = pos, text, tag
         self.ncalls = 0
         self.kinds_seen = []
@@ -522,6 +544,8 @@ def play(app, case, cid):
     from . import steps
 
     app.reset(case["pos"], case["text"], cid)
+    app.log.clear()
+    app.prompts_by_turn = {}
     out = []
     # (passthrough forwards the message list to the LLM verbatim and rejects a `context` role: a harness matter, not LLM output)
     msgs = [] if app.mode == "v1_passthrough" else [{"role": "context", "content": {"secret_var": SECRET_CTX}}]
@@ -550,6 +574,8 @@ def play(app, case, cid):
             break
         finally:
             app.max_steps = max(app.max_steps, steps.stop())
+            app.prompts_by_turn[t] = [e.get("prompt", "") for e in app.log.items if e.get("kind") == "llm"]
+            app.log.clear()
     return out
 
 
@@ -609,6 +635,34 @@ def _run(app, case, cid):
             else:
                 problem = {"mech": mech + (":" + str(det) if mech == "llm-postprocessing-crashed" else ""), "detail": str(det)[:300], "turn": t, "what": mech}
             break
+    hturn = _positions(case["mode"], case["ttypes"])[case["pos"]][0]
+    if problem is None:
+        # evaluated syntax must not travel on into the prompts of later calls either
+        pm = [x for m in case["markers"] for x in PROMPT_MARKERS if x.startswith(m)]
+        for t in sorted(app.prompts_by_turn):
+            for pr in app.prompts_by_turn[t]:
+                hit = next((m for m in pm if m in pr), None)
+                if hit and problem is None:
+                    problem = {"mech": "taint-evaluated-into-prompt", "detail": "marker %s in a prompt of turn %d: ...%s" % (hit, t, pr[max(0, pr.find(hit) - 120) : pr.find(hit) + 40]), "turn": t, "what": "taint-evaluated"}
+    if problem is None and len(turns) > hturn + 1 and case["text"] != wellformed(case["kind"], case["ttypes"][hturn], "M") and app.hit_kind == case["kind"]:
+        # containment: a later turn whose LLM answers are all well-formed must not be broken by the hostile answer of an
+        # earlier turn. Control = the same conversation with the well-formed completion at the hostile position.
+        ctl = dict(case, text=wellformed(case["kind"], case["ttypes"][hturn], "%s-%d-%d" % (cid, hturn, case["pos"])))
+        hostile_app = (app.hit_kind, list(app.kinds_seen), app.ncalls, dict(app.prompts_by_turn), app.max_steps)
+        app_c = get_app(case["mode"], fresh=True)
+        turns_c = play(app_c, ctl, cid)
+        for t in range(hturn + 1, min(len(turns), len(turns_c))):
+            r1, e1, _f1 = turns[t]
+            r0, e0, _f0 = turns_c[t]
+            ok0 = e0 is None and isinstance(r0, dict) and r0.get("role") == "assistant" and isinstance(r0.get("content"), str) and r0["content"].strip() and "internal error" not in r0["content"].lower()
+            bad1 = isinstance(r1, dict) and ((r1.get("role") == "assistant" and isinstance(r1.get("content"), str) and (not r1["content"].strip() or "internal error" in r1["content"].lower())) or r1.get("role") == "exception")
+            if ok0 and bad1:
+                # An OBSERVATION, not a verdict: the statement promises a well-formed message and no exception for every
+                # turn, which an empty / internal-error reply satisfies. (Seen on the unchanged tree: a generated user
+                # intent that names no flow leaves `continuation on unhandled user utterance` waiting forever, so later
+                # turns make no LLM call at all and answer "".)
+                app.later_turns_emptied = getattr(app, "later_turns_emptied", 0) + 1
+        app.later_turns_compared = max(0, min(len(turns), len(turns_c)) - hturn - 1)
     return turns, problem
 
 
@@ -658,6 +712,8 @@ def run_case(case):
     obs = {"conversations": 1, "turns": len(turns), "llm_calls": app.ncalls, "prompt_renders_seen": app.renders and 1 or 0}
     obs["max_steps_per_turn_" + app.ver] = app.max_steps
     obs["mode_pos_%s_%s" % (mode, case["kind"])] = 1
+    obs["later_turns_compared_with_control"] = getattr(app, "later_turns_compared", 0)
+    obs["later_wellformed_turns_emptied_by_earlier_hostile_output"] = getattr(app, "later_turns_emptied", 0)
     for r, e, failed in turns:
         if isinstance(r, dict) and isinstance(r.get("content"), str):
             c = r["content"]
